@@ -18,6 +18,7 @@ import KavaVerif.Model.Accumulator
   c09.kpend  src I s i r => rs                      GetSynchronized<Source>Claim for every user
   c09.kclaim src u factor now claimEnd macc I s i r => cls i' r' paid maccDelta
   c09.sum    src T s                                Σ source shares = total source shares
+  c09.sumle  src T s                                Σ listed users' shares ≤ total (delegations: the validator's own)
   c09.bound  src nusers nsyncs emission sumT credited
 -/
 namespace Drv.C09
@@ -29,6 +30,11 @@ def clsOf {α : Type} : Res α → String
 /-- list entries that may be absent ("x") -/
 def optInts? (s : String) : Option (List (Option Int)) :=
   (strs s).mapM fun t => if t == "x" then some none else (int? t).map some
+
+/-- "Aswap:sdep:5/7" ↦ "swap": the source kind used in PREDFAIL tags (details follow the tag) -/
+def kindOf (src : String) : String :=
+  let h := (src.splitOn ":").headD src
+  (h.drop 1).toString
 
 def clip (t start stop : Int) : Int := min (max t start) stop
 
@@ -43,10 +49,13 @@ def mkSt (I T prev : Int) (s : List Int) (i : List (Option Int)) (r : List Int) 
   { I := I, T := T, prev := prev,
     u := fun a => { s := s.getD a 0, i := effIdx I (s.getD a 0) ((i.getD a none)), r := r.getD a 0 } }
 
+/-- stored index against the model's; with zero shares the stored index is immaterial (nothing can be
+    pending and the next event re-initialises it to the global index) -/
 def idxEq (model : Int) (s' : Int) (impl : Option Int) : Bool :=
+  s' == 0 ||
   match impl with
   | some v => v == model
-  | none => s' == 0 || model == 0
+  | none => model == 0
 
 /-- |x·P² − d·s| ≤ (P² + P)/2 : the two half-even roundings of `CalculateSingleReward` -/
 def rewardWithinRounding (x d s : Int) : Bool :=
@@ -71,7 +80,7 @@ def handleAcc : Handler
         else if d != (let x := clip now start stop - clip prev start stop; if x > maxDur then maxDur else x) then
           predfail "C09_window" s!"duration d={d}"
         else if d == 0 && secs != 0 then predfail "C09_window" "seconds-for-empty-overlap"
-        else if secs < 0 || 2 * (secs * NS - d) > NS + 2 || 2 * (d - secs * NS) > NS + 2 then
+        else if secs < 0 || 2 * (secs * NS - d) > NS + 2 + d / 2 ^ 50 || 2 * (d - secs * NS) > NS + 2 + d / 2 ^ 50 then
           predfail "C09_window" s!"seconds-not-nearest d={d} secs={secs}"
         else if rate ≥ 0 && I' < I then predfail "C09_no_over_distribution" "index-decreased"
         else if T > 0 && 2 * (I' - I) * T > 2 * rate * secs * P + T then
@@ -156,7 +165,7 @@ def handleKChange : Handler
       let n := s.length
       if cls != "ok" then
         -- a failed message is rolled back: nothing may change
-        if s' == showInts s && r' == showInts r then "ok" else predfail "C09_frame" s!"{src}-failed-op-changed-state"
+        if s' == showInts s && r' == showInts r then "ok" else predfail "C09_frame" s!"{kindOf src}-failed-op-changed-state src={src}"
       else
       match ints? s', optInts? i', ints? r' with
       | some s', some i', some r' =>
@@ -165,17 +174,17 @@ def handleKChange : Handler
         let othersSame := (range n).all fun v =>
           v == u || (s'.getD v 0 == s.getD v 0 && r'.getD v 0 == r.getD v 0 &&
                      (i'.getD v none == i.getD v none))
-        if !othersSame then predfail "C09_frame" s!"{src}-other-user-changed"
-        else if r'.getD u 0 < r.getD u 0 then predfail "C09_frame" s!"{src}-accrued-reward-decreased"
+        if !othersSame then predfail "C09_frame" s!"{kindOf src}-other-user-changed src={src}"
+        else if r'.getD u 0 < r.getD u 0 then predfail "C09_frame" s!"{kindOf src}-accrued-reward-decreased src={src}"
         else
           let changed := s'.getD u 0 != s.getD u 0
           let want := (σ.u u).r + pending σ u
           let synced := r'.getD u 0 == want && idxEq I (s'.getD u 0) (i'.getD u none)
           let untouched := r'.getD u 0 == r.getD u 0 && i'.getD u none == i.getD u none
           if changed && !synced then
-            predfail "C09_frame" s!"{src}-share-change-without-sync-of-pre-change-shares want={want} got={r'.getD u 0}"
+            predfail "C09_frame" s!"{kindOf src}-share-change-without-sync-of-pre-change-shares src={src} want={want} got={r'.getD u 0}"
           else if !changed && !synced && !untouched then
-            predfail "C09_frame" s!"{src}-own-reward-changed-by-other-than-pending want={want} got={r'.getD u 0}"
+            predfail "C09_frame" s!"{kindOf src}-own-reward-changed-by-other-than-pending src={src} want={want} got={r'.getD u 0}"
           else
           -- (2) model: hook then write (only when the source really changed the shares)
           if changed then
@@ -199,8 +208,8 @@ def handleKPend : Handler
       allOk ((range s.length).map fun v =>
         let d := I - (σ.u v).i
         let got := rs.getD v 0 - r.getD v 0
-        if d < 0 then predfail "C09_integral" s!"{src}-index-above-global"
-        else if !rewardWithinRounding got d (s.getD v 0) then predfail "C09_integral" s!"{src}-pending-rounding-exceeds-one-unit"
+        if d < 0 then predfail "C09_integral" s!"{kindOf src}-index-above-global src={src}"
+        else if !rewardWithinRounding got d (s.getD v 0) then predfail "C09_integral" s!"{kindOf src}-pending-rounding-exceeds-one-unit src={src}"
         else expectEq s!"synced{v}" (toString ((σ.u v).r + pending σ v)) (toString (rs.getD v 0)))
     | _, _, _, _, _ => badInput "parse"
   | _ => badInput "arity"
@@ -215,21 +224,21 @@ def handleKClaim : Handler
         -- (1) refused claims: after the deadline always; otherwise only a zero payout / empty account
         let accrued := (σ.u u).r + pending σ u
         let pay := Dec.roundInt (Dec.mul (Dec.ofInt accrued) ⟨factor⟩)
-        if now ≤ claimEnd && pay > 0 && pay ≤ macc then predfail "C09_claim" s!"{src}-refused-payable-claim"
-        else if r' != showInts r then predfail "C09_claim" s!"{src}-failed-claim-changed-state"
+        if now ≤ claimEnd && pay > 0 && pay ≤ macc then predfail "C09_claim" s!"{kindOf src}-refused-payable-claim src={src}"
+        else if r' != showInts r then predfail "C09_claim" s!"{kindOf src}-failed-claim-changed-state src={src}"
         else expectEq "class" (clsOf res) cls
       else
       match optInts? i', ints? r', int? paid, int? maccDelta with
       | some i', some r', some paid, some maccDelta =>
         let accrued := (σ.u u).r + pending σ u
-        if now > claimEnd then predfail "C09_claim" s!"{src}-accepted-after-claim-end"
+        if now > claimEnd then predfail "C09_claim" s!"{kindOf src}-accepted-after-claim-end src={src}"
         else if paid != Dec.roundInt (Dec.mul (Dec.ofInt accrued) ⟨factor⟩) then
-          predfail "C09_claim" s!"{src}-paid-not-accrued-times-multiplier paid={paid} accrued={accrued}"
-        else if maccDelta != -paid then predfail "C09_claim" s!"{src}-not-paid-from-incentive-account"
-        else if r'.getD u 0 != 0 then predfail "C09_claim" s!"{src}-claim-not-reset"
-        else if paid == 0 then predfail "C09_claim" s!"{src}-zero-claim-accepted"
+          predfail "C09_claim" s!"{kindOf src}-paid-not-accrued-times-multiplier src={src} paid={paid} accrued={accrued}"
+        else if maccDelta != -paid then predfail "C09_claim" s!"{kindOf src}-not-paid-from-incentive-account src={src}"
+        else if r'.getD u 0 != 0 then predfail "C09_claim" s!"{kindOf src}-claim-not-reset src={src}"
+        else if paid == 0 then predfail "C09_claim" s!"{kindOf src}-zero-claim-accepted src={src}"
         else if !((range s.length).all fun v => v == u || (r'.getD v 0 == r.getD v 0 && i'.getD v none == i.getD v none)) then
-          predfail "C09_frame" s!"{src}-claim-changed-other-user"
+          predfail "C09_frame" s!"{kindOf src}-claim-changed-other-user src={src}"
         else match res with
           | .ok (σ', pay) =>
             allOk [expectEq "paid" (toString pay) (toString paid),
@@ -247,8 +256,19 @@ def handleSum : Handler
     | some T, some s =>
       let tot := s.foldl (· + ·) 0
       if tot == T then "ok"
-      else if tot > T then predfail "C09_shares_sum" s!"{src}-user-shares-exceed-total sum={tot} T={T}"
-      else predfail "C09_shares_sum" s!"{src}-user-shares-below-total sum={tot} T={T}"
+      else if tot > T then predfail "C09_shares_sum" s!"{kindOf src}-user-shares-exceed-total src={src} sum={tot} T={T}"
+      else predfail "C09_shares_sum" s!"{kindOf src}-user-shares-below-total src={src} sum={tot} T={T}"
+    | _, _ => badInput "parse"
+  | _ => badInput "arity"
+
+/-- Σ listed users' shares ≤ total (sources with participants outside the harness's users) -/
+def handleSumLe : Handler
+  | [src, T, s] =>
+    match int? T, ints? s with
+    | some T, some s =>
+      let tot := s.foldl (· + ·) 0
+      if tot ≤ T then "ok"
+      else predfail "C09_shares_sum" s!"{kindOf src}-user-shares-exceed-total src={src} sum={tot} T={T}"
     | _, _ => badInput "parse"
   | _ => badInput "arity"
 
@@ -260,7 +280,10 @@ def handleBound : Handler
     match int? nusers, int? nsyncs, int? emission, int? sumT, int? credited with
     | some nu, some ns, some em, some sT, some cr =>
       if 2 * P * P * cr ≤ 2 * P * em + sT + (ns + nu) * (P * P + P) then "ok"
-      else predfail "C09_no_over_distribution" s!"{src}-credited-exceeds-emission credited={cr} emission={em}"
+      else
+        -- x/hard with a non-zero interest model: Σ normalised user amounts ≠ total/factor (known drift)
+        let tag := if src.startsWith "Bh" then "hard-with-interest-credited-exceeds-emission" else "credited-exceeds-emission"
+        predfail "C09_no_over_distribution" s!"{tag} src={src} credited={cr} emission={em}"
     | _, _, _, _, _ => badInput "parse"
   | _ => badInput "arity"
 
@@ -282,6 +305,7 @@ def handlers : List (String × Handler) := [
   ("c09.kpend", handleKPend),
   ("c09.kclaim", handleKClaim),
   ("c09.sum", handleSum),
+  ("c09.sumle", handleSumLe),
   ("c09.bound", handleBound)
 ]
 end Drv.C09
